@@ -106,5 +106,117 @@ def replay_real(case):
     check_real(Ctx(PROPERTY, "real", "quick", 0, 0, 1), tuple(case))
 
 
+# ---------------------------------------------------------------- the data connection breaks in the middle of a transfer
+async def _datafault(loop, verb, how, after, backend, tmp):
+    """Commands still come one at a time; the peer closes or resets its *data* socket while the transfer runs.  The transfer
+    command still gets exactly one completion reply and the session goes on."""
+    import asyncio
+    from vlib.harness import HOST, PORT, aioftp
+    from vlib.ftpmodel import DIR
+    big = bytes(i % 251 for i in range(400000))
+    users = [aioftp.User(base_path=tmp)] if backend != "mem" else [aioftp.User()]
+    server = aioftp.Server(users, path_io_factory=harness.BACKENDS[backend], wait_future_timeout=2)
+    await server.start(HOST, PORT)
+    tree = {"/": DIR, "/big": big, "/small": b"small", "/d": DIR}
+    for i in range(3000):
+        tree["/d/entry-with-a-long-name-%05d" % i] = b""
+    if backend == "mem":
+        harness.mem_populate(server, tree)
+    else:
+        harness.fs_populate(tmp, tree)
+    raw = harness.Raw(HOST, PORT, patience=30)
+    await raw.connect()
+    await raw.cmd("USER anonymous")
+    await raw.cmd("EPSV")
+    dr, dw = await raw.open_data()
+    await asyncio.sleep(0.1)
+    line = {"RETR": "RETR /big", "LIST": "LIST /d", "MLSD": "MLSD /d", "STOR": "STOR /up"}[verb]
+    code, _ = await raw.cmd(line)
+    replies = [code]
+    if code == "150":
+        if verb == "STOR":
+            dw.write(big[:after])
+            await asyncio.sleep(0.2)
+        else:
+            got = 0
+            while got < after:
+                chunk = await dr.read(min(8192, after - got))
+                if not chunk:
+                    break
+                got += len(chunk)
+        if how == "rst":
+            dw.transport.abort()
+        else:
+            dw.close()
+        while len(replies) < 4:
+            c, _ = await raw.reply(10)
+            replies.append(c)
+            if c in ("EOF", "SILENCE"):
+                break
+    follow = []
+    if replies[-1] != "EOF":
+        follow.append((await raw.cmd("PWD"))[0])
+        c1, _ = await raw.cmd("EPSV")
+        follow.append(c1)
+        if c1 == "229":
+            d2 = await raw.open_data()
+            await asyncio.sleep(0.1)
+            c2, _ = await raw.cmd("RETR /small")
+            follow.append(c2)
+            if c2 == "150":
+                data, eof = await harness.read_all(d2[0], 20)
+                follow.append(data == b"small" and eof)
+                follow.append((await raw.reply())[0])
+            d2[1].close()
+    raw.close()
+    await asyncio.wait_for(server.close(), 1000)
+    return dict(replies=replies, follow=follow)
+
+
+def datafault_cases(tier):
+    out = []
+    for verb in ("RETR", "LIST", "MLSD", "STOR"):
+        for how in ("rst", "fin"):
+            for after in ((0, 1, 20000) if tier == "quick" else (0, 1, 8192, 20000, 150000)):
+                for backend in (("mem", "fs") if tier == "quick" else ("mem", "fs", "afs")):
+                    if verb == "STOR" and how == "fin":
+                        continue  # closing the data connection is how an upload ends: not a fault
+                    out.append((verb, how, after, backend))
+    return out
+
+
+def judge_datafault(case, out):
+    verb, how, after, backend = case
+    detail = dict(verb=verb, data_connection=how, after_bytes=after, backend=backend, **out)
+    r = out["replies"]
+    if r[-1] == "EOF":
+        raise Violation(f"C05/datafault/session_closed_without_announcing_reply/{verb}", detail)
+    if len(r) != 3 or r[0] != "150" or r[2] != "SILENCE" or r[1][0] not in "245":
+        raise Violation(f"C05/datafault/not_exactly_one_completion_reply/{verb}", detail)
+    if out["follow"] != ["257", "229", "150", True, "226"]:
+        raise Violation(f"C05/datafault/session_not_usable_afterwards/{verb}", detail)
+
+
+def part_datafault(ctx):
+    for case in datafault_cases(ctx.tier)[ctx.shard::ctx.nshards]:
+        with harness.TempDirs() as td:
+            tmp = td.new() if case[3] != "mem" else None
+            out = simnet.run(lambda loop: _datafault(loop, *case, tmp))
+        ctx.count(("datafault",) + case, out["replies"][1:2] not in (["226"], ["200"]), sample=dict(verb=case[0], data_connection=case[1], after_bytes=case[2],
+                                                                                                  backend=case[3], replies=out["replies"]),
+                  classes=["datafault_" + case[0], "datafault_" + case[1]])
+        try:
+            judge_datafault(case, out)
+        except Violation as v:
+            ctx.fail(v.sig, dict(kind="datafault", case=list(case)), v.detail)
+
+
+def replay_datafault(case):
+    c = tuple(case["case"])
+    with harness.TempDirs() as td:
+        tmp = td.new() if c[3] != "mem" else None
+        judge_datafault(c, simnet.run(lambda loop: _datafault(loop, *c, tmp)))
+
+
 def plan(tier):
-    return [("walk", 16), ("real", 8)]
+    return [("walk", 16), ("real", 8), ("datafault", 8)]
